@@ -139,7 +139,9 @@ type Prog struct {
 	ExtFuncs   string       `json:"ext_funcs,omitempty"`   // Go declarations appended to package ext
 	OldTag     bool         `json:"old_tag,omitempty"`     // also emit "// +build convergen"
 	PkgDoc     []string     `json:"pkg_doc,omitempty"`
-	ExtraFiles hx.Files     `json:"extra_files,omitempty"`
+	// GoGenerateAtPackage puts a go:generate line directly above the package clause
+	GoGenerateAtPackage bool     `json:"go_generate_at_package,omitempty"`
+	ExtraFiles          hx.Files `json:"extra_files,omitempty"`
 	// BlankImportFieldPkgs: the setup file blank-imports packages that only field types of local
 	// structs mention (keeps generators away from the "sibling-only import" construct when wanted).
 	BlankImportFieldPkgs bool `json:"blank_import_field_pkgs,omitempty"`
@@ -266,6 +268,9 @@ func (p *Prog) RenderSetup() string {
 	sb.WriteString("\n")
 	for _, l := range p.PkgDoc {
 		sb.WriteString("// " + l + "\n")
+	}
+	if p.GoGenerateAtPackage {
+		sb.WriteString("//go:generate go run github.com/reedom/convergen@v0.8.0\n")
 	}
 	sb.WriteString("package home\n\n")
 	if len(p.Imports) > 0 {
